@@ -289,8 +289,8 @@ class DIMSEServiceProvider:
                 return
 
             # Keep C-CANCEL requests separate from other messages
-            # Only allow up to 10 C-CANCEL requests
-            if isinstance(d_primitive, C_CANCEL) and len(self.cancel_req) < 10:
+            # They're stored by (16-bit) Message ID so at most 65536 are kept
+            if isinstance(d_primitive, C_CANCEL):
                 msg_id = cast(int, d_primitive.MessageIDBeingRespondedTo)
                 self.cancel_req[msg_id] = d_primitive
             elif (
